@@ -135,29 +135,36 @@ theorem altered_member_rejected (s s' : Stream) (m : M) (st : Bytes)
     · exact h1 (Prod.mk.inj e).2.symm
     · exact hd (Prod.mk.inj e).1.symm
 
+/-- **Any member-level edit that leaves the SHA256SUMS content alone: same extraction or
+    rejected.** Removal, duplication, injection, splitting, renaming or reordering of members —
+    whatever the edited stream `s'` is — if it is accepted at all then the digests of its
+    meta.json and state.bin content equal the original ones, so under collision-freeness of `H`
+    on these two pairs of values it extracts exactly what the original did. -/
+theorem member_edit_same_or_rejected (s s' : Stream) (m : M) (st : Bytes)
+    (h : readStream H apply m0 s = .ok (m, st))
+    (hsums : cat nSums s'.members = cat nSums s.members)
+    (hcfM : H (cat nMeta s'.members) = H (cat nMeta s.members) → metas s'.members = metas s.members)
+    (hcfS : H (cat nState s'.members) = H (cat nState s.members) →
+      cat nState s'.members = cat nState s.members) :
+    readStream H apply m0 s' = .ok (m, st) ∨ ∃ e, readStream H apply m0 s' = .error e := by
+  cases hr : readStream H apply m0 s' with
+  | error e => right; exact ⟨e, rfl⟩
+  | ok res =>
+    left
+    obtain ⟨m', st'⟩ := res
+    have hM : H (cat nMeta s'.members) = H (cat nMeta s.members) := by
+      apply Classical.byContradiction; intro hne
+      obtain ⟨e, he⟩ := altered_member_rejected H apply m0 s s' m st h hsums (Or.inl hne)
+      rw [hr] at he; cases he
+    have hS : H (cat nState s'.members) = H (cat nState s.members) := by
+      apply Classical.byContradiction; intro hne
+      obtain ⟨e, he⟩ := altered_member_rejected H apply m0 s s' m st h hsums (Or.inr hne)
+      rw [hr] at he; cases he
+    have := extraction_determined_by_payloads H apply m0 s s' m m' st st' (hcfM hM) (hcfS hS) h hr
+    rw [this.1, this.2]
+
 /-- Special case in the words of the property: one byte (or any other part) of one meta.json or
-    state.bin member is replaced. `setData i b'` replaces the data of member `i`. -/
-def setData (ms : List Member) (i : Nat) (b' : Bytes) : List Member :=
-  match ms[i]? with
-  | none => ms
-  | some x => ms.set i { x with data := b' }
-
-theorem cat_setData_other (ms : List Member) (i : Nat) (b' nm : Bytes) (x : Member)
-    (hx : ms[i]? = some x) (hn : x.name ≠ nm) : cat nm (setData ms i b') = cat nm ms := by
-  induction ms generalizing i with
-  | nil => simp at hx
-  | cons y ys ih =>
-    cases i with
-    | zero =>
-      simp at hx; subst hx
-      simp [setData, cat, hn]
-    | succ j =>
-      simp at hx
-      have := ih j hx
-      simp only [setData, hx, List.getElem?_cons_succ, List.set_cons_succ] at this ⊢
-      simp only [cat, List.filter_cons] at this ⊢
-      split <;> simp_all
-
+    state.bin member is replaced. `setData ms i b'` replaces the data of member `i`. -/
 theorem replaced_member_rejected (ms : List Member) (e : Ending) (i : Nat) (x : Member) (b' : Bytes)
     (m : M) (st : Bytes) (h : readStream H apply m0 ⟨ms, e⟩ = .ok (m, st))
     (hx : ms[i]? = some x) (hname : x.name = nMeta ∨ x.name = nState)
@@ -362,10 +369,6 @@ theorem truncation_classes (ms : List (Bytes × Bytes)) (cut : Nat) :
       ∃ k, k < ms.length ∧ truncStream ms cut = ⟨(ms.take k).map full, .eof⟩) ∧
     (lastDataEnd 0 (sizesOf ms) ≤ cut → (truncStream ms cut).members = ms.map full) :=
   ⟨truncFrom_before_last 0 ms cut, truncFrom_after_last 0 ms cut⟩
-
-/-- SHA256SUMS is the last member and occurs only there (true of every archive `write` makes) -/
-def SumsLast (ms : List (Bytes × Bytes)) : Prop :=
-  ∃ pre x, ms = pre ++ [x] ∧ ∀ y ∈ pre, y.1 ≠ nSums
 
 /-- **Cut short ⇒ rejected.** Any archive whose only SHA256SUMS member comes last, cut at any
     byte before that member's data is complete, is rejected — unconditionally (no assumption on
